@@ -43,7 +43,10 @@ def gen_format(rng):
             items.append(("F",))
         else:
             w = rng.choice(["", "", "", "0", "1", "3", "7", "12"])
-            items.append(("d", rng.choice(DIRS), w, rng.random() < 0.4))
+            # a precision now and then (outside the property's quantifier, inside the format language: at most that many
+            # characters - for the numbers %d and %m at least that many digits)
+            pr = rng.choice(["", ".0", ".1", ".3", ".6", ".", ".12"]) if rng.random() < 0.15 else ""
+            items.append(("d", rng.choice(DIRS), w, rng.random() < 0.4, pr))
     return items
 
 
@@ -59,7 +62,7 @@ def show(items):
         elif it[0] == "F":
             out += "\\c"
         else:
-            out += "%" + ("-" if it[3] else "") + it[2] + it[1]
+            out += "%" + ("-" if it[3] else "") + it[2] + (it[4] if len(it) > 4 else "") + it[1]
     return out
 
 
@@ -77,6 +80,12 @@ def render_ref(items, values):
             break                 # \c: nothing more is printed for this file
         else:
             v = values[it[1]]
+            if len(it) > 4 and it[4]:
+                p = int(it[4][1:] or "0")
+                if it[1] in ("d", "m"):
+                    v = "" if (p == 0 and v == "0") else v.rjust(p, "0")
+                else:
+                    v = v[:p]
             if it[2] != "":
                 w = int(it[2])
                 v = v.ljust(w) if it[3] else v.rjust(w)
